@@ -83,6 +83,16 @@ fn main() {
             };
             std::process::exit(driver::replay(sc.as_ref(), &a[2]));
         }
+        "smoke" => {
+            // boot a query server and an IDM server through the production path
+            entropy::swap_stream(Some(rng::Rng::new(7)));
+            let ct = std::time::Duration::from_secs(cluster::BASE_EPOCH);
+            let qs = node::boot_qs(&node::NodeCfg::mem(), ct).expect("boot qs");
+            let idm = node::boot_idm(qs, ct).expect("boot idm");
+            let n = node::block(idm.idms.proxy_read()).map(|_| 1).unwrap_or(0);
+            entropy::swap_stream(None);
+            println!("smoke ok: qs + idm booted, proxy_read={n}, entropy draws={}", entropy::draws());
+        }
         "explore" => {
             if a.len() < 4 {
                 usage();
